@@ -220,8 +220,16 @@ def huge_nk_perm_case(draw):
     return {"g": gs, "p": p, "x": draw(gens.x_spec(d_max=2, kinds=("normal",))), "rseed": draw(gens.seeds)}
 
 
+@st.composite
+def wass_large_perm_case(draw):
+    gs = draw(objs.gemini_spec(bases=("wasserstein",), metric_forms=("named", "randdist")))
+    p = draw(gens.p_spec(n_min=40, n_max=150, k_min=2, k_max=6, scales=[0.5, 2.0, 8.0]))
+    return {"g": gs, "p": p, "x": draw(gens.x_spec(d_max=3, kinds=("normal", "grid"))), "rseed": draw(gens.seeds)}
+
+
 def subs():
     return [
+        Sub("wasserstein_large_permutation", wass_large_perm_case(), oracle_perm, 80, 2000, "permutation invariance of Wasserstein on 40-150 samples"),
         Sub("huge_nk_permutation", huge_nk_perm_case(), oracle_perm, 40, 500, "permutation invariance, n*K^2 beyond 2^20"),
         Sub("huge_permutation", huge_perm_case(), oracle_perm, 120, 1200, "permutation invariance for n in (1024, 2600]"),
         Sub("permutation", perm_case(), oracle_perm, 4000, 80000, "joint permutation of samples and clusters"),
